@@ -12,7 +12,8 @@ use std::cell::Cell;
 
 #[derive(Clone, Debug, Serialize, Deserialize)]
 pub struct RespCase {
-    /// 0 token (BasicTokenResponse), 1 token with extension fields, 4 revocation (status only)
+    /// 0 token (BasicTokenResponse), 1 token with extension fields, 2 device authorization, 3 introspection,
+    /// 4 revocation (status only)
     pub family: u8,
     /// request kind carrying the reply for family 0: 0 code, 1 refresh, 2 password, 3 client credentials
     pub kind: u8,
@@ -57,6 +58,13 @@ pub fn body_classes() -> Vec<(&'static str, Vec<u8>)> {
         ("success", br#"{"access_token":"AT","token_type":"bearer"}"#.to_vec()),
         ("success-full", br#" { "token_type" : "Bearer", "access_token":"AT", "expires_in":3600, "refresh_token":"RT", "scope":"a b", "id_token":"ID", "zzz":[1,{"q":null}] } "#.to_vec()),
         ("success-ext", br#"{"access_token":"AT","token_type":"MAC","id_token":"ID","session":7}"#.to_vec()),
+        ("success-device", br#"{"device_code":"DC","user_code":"UC","verification_uri":"https://v.example/","expires_in":600}"#.to_vec()),
+        ("success-device-full", br#"{"interval":0,"device_code":"DC","user_code":"UC","verification_url":"HTTPS://V.example","verification_uri_complete":"c","expires_in":1,"zz":null}"#.to_vec()),
+        ("device-bad-url", br#"{"device_code":"DC","user_code":"UC","verification_uri":"not a url","expires_in":600}"#.to_vec()),
+        ("success-intro", br#"{"active":true}"#.to_vec()),
+        ("success-intro-full", br#"{"active":false,"scope":"a b","client_id":"c","username":"u","token_type":"Bearer","exp":1,"iat":-1,"nbf":0,"sub":"s","aud":["x"],"iss":"i","jti":"j","zz":[1]}"#.to_vec()),
+        ("intro-no-active", br#"{"scope":"a","client_id":"c"}"#.to_vec()),
+        ("intro-active-string", br#"{"active":"true"}"#.to_vec()),
         ("error", br#"{"error":"invalid_grant"}"#.to_vec()),
         ("error-full", r#"{"error":"invalid_request","error_description":"d é","error_uri":"https://e/","extra":1}"#.as_bytes().to_vec()),
         ("error-ext", br#"{"error":"custom_code"}"#.to_vec()),
@@ -95,6 +103,8 @@ pub fn body_classes() -> Vec<(&'static str, Vec<u8>)> {
 #[derive(PartialEq, Debug)]
 enum Seen {
     Tok(String, String),
+    Dev(String, u64),
+    Intro(bool),
     Unit,
     Err(String, Option<String>, Option<String>),
     Req(u64),
@@ -149,7 +159,7 @@ impl CaseInput for RespCase {
             7 => *r.pick(&[100u16, 101, 199, 300, 302, 304, 399, 404, 429, 599]),
             _ => r.range(100, 599) as u16,
         };
-        let family = *r.pick(&[0u8, 0, 0, 1, 4]);
+        let family = *r.pick(&[0u8, 0, 0, 1, 2, 3, 4]);
         RespCase {
             family,
             kind: r.below(4) as u8,
@@ -174,7 +184,7 @@ impl CaseInput for RespCase {
                     if !interesting && (status as usize + ci + bi) % 7 != 0 {
                         continue;
                     }
-                    for family in [0u8, 1, 4] {
+                    for family in [0u8, 1, 2, 3, 4] {
                         v.push(RespCase {
                             family,
                             kind: (status % 4) as u8,
@@ -224,6 +234,15 @@ impl CaseInput for RespCase {
                     Seen::Tok(t.access_token().secret().clone(), t.token_type().as_ref().to_string())
                 })
             }
+            2 => {
+                let c = BasicClient::new(ClientId::new("id".into())).set_device_authorization_url(DeviceAuthorizationUrl::new(url).unwrap());
+                seen_res(c.exchange_device_code().request(&http), |d: &StandardDeviceAuthorizationResponse| Seen::Dev(d.device_code().secret().clone(), d.interval().as_secs()))
+            }
+            3 => {
+                let c = BasicClient::new(ClientId::new("id".into())).set_introspection_url(IntrospectionUrl::new(url).unwrap());
+                let at = AccessToken::new("t".into());
+                seen_res(c.introspect(&at).request(&http), |i: &BasicTokenIntrospectionResponse| Seen::Intro(i.active()))
+            }
             _ => {
                 let c = BasicClient::new(ClientId::new("id".into())).set_revocation_url(RevocationUrl::new(url).unwrap());
                 let rq = c.revoke_token(StandardRevocableToken::AccessToken(AccessToken::new("t".into()))).unwrap();
@@ -261,6 +280,23 @@ impl CaseInput for RespCase {
                         (Some(v), _) if shape_ok(v) => {}
                         (None, Some(v)) if shape_ok(v) => oracle.push(("C05:trailing-bytes-accepted".into(), format!("token accepted from a body that is not a JSON document: {:?}", String::from_utf8_lossy(&self.body)))),
                         _ => oracle.push(("C05:token-from-wrong-shape".into(), format!("{:?}", String::from_utf8_lossy(&self.body)))),
+                    }
+                }
+                Seen::Dev(..) | Seen::Intro(..) => {
+                    if self.status != 200 {
+                        oracle.push(("C05:non200-success".into(), format!("status {} yielded a success value {seen:?}", self.status)));
+                    }
+                    if !ct_ok_independent(&self.content_type) {
+                        oracle.push(("C05:non-json-content-type-accepted".into(), format!("{:?}", self.content_type.as_ref().map(|c| String::from_utf8_lossy(c).to_string()))));
+                    }
+                    let shape_ok = |v: &serde_json::Value| match &seen {
+                        Seen::Dev(..) => ["device_code", "user_code"].iter().all(|k| v.get(*k).map_or(false, |x| x.is_string())) && v.get("expires_in").map_or(false, |x| x.is_u64())
+                            && (v.get("verification_uri").map_or(false, |x| x.is_string()) ^ v.get("verification_url").map_or(false, |x| x.is_string())),
+                        _ => v.get("active").map_or(false, |x| x.is_boolean()),
+                    };
+                    match &whole {
+                        Some(v) if shape_ok(v) => {}
+                        _ => oracle.push(("C05:success-from-wrong-shape".into(), format!("{seen:?} from {:?}", String::from_utf8_lossy(&self.body)))),
                     }
                 }
                 Seen::Unit => {
@@ -309,14 +345,32 @@ impl CaseInput for RespCase {
         }
         let obs = match &seen {
             Seen::Tok(a, t) => format!("S {} {}", hs(a), hs(t)),
+            Seen::Dev(d, i) => format!("D {} {i}", hs(d)),
+            Seen::Intro(a) => format!("I {}", b(*a)),
             Seen::Unit => "U".into(),
             Seen::Err(c, d, u) => format!("E {} {} {}", hs(c), hopt(d.as_deref()), hopt(u.as_deref())),
             Seen::Req(n) => format!("Q {n}"),
             Seen::Parse(b) => format!("P {}", hex(b)),
             Seen::Other => "O".into(),
         };
+        let extra = match self.family {
+            2 => {
+                // the harness' own verdict on the verification URI text (external URL parser)
+                let verdict = first.as_ref().and_then(|v| v.get("verification_uri").or(v.get("verification_url")).and_then(|x| x.as_str().map(|s| url::Url::parse(s).is_ok())));
+                match verdict {
+                    None => " n".to_string(),
+                    Some(x) => format!(" {}", b(x)),
+                }
+            }
+            3 => {
+                let lo = chrono::DateTime::<chrono::Utc>::MIN_UTC.timestamp();
+                let hi = chrono::DateTime::<chrono::Utc>::MAX_UTC.timestamp();
+                format!(" m{} p{}", -lo, hi)
+            }
+            _ => String::new(),
+        };
         let line = format!(
-            "resp {} {} {} {} {} {} | {} {}",
+            "resp {} {} {} {} {} {}{extra} | {} {}",
             self.family,
             self.status,
             match &self.content_type {
